@@ -67,10 +67,21 @@ def check(src, rep):
     folds = [le for le in E0.loop_entries if isinstance(le[1], ast.For)]
     seen_nodes = []
     folds = [le for le in folds if not (le[1] in seen_nodes or seen_nodes.append(le[1]))]
-    rep.require(len(folds) == 1, f"cannot find the CRC fold reached from DataReadout.__init__ ({len(folds)} loops)")
-    crcfn, foldnode, foldfr, foldentry = folds[0]
-    CRCF = next((k for k, v in writes.items() if v[0] == "havoc" and v[2] == foldnode.lineno), None)
-    rep.require(CRCF is not None, "cannot bind the computed-CRC field (no field receives the result of the fold)")
+    CRCF = None
+    if len(folds) == 1:
+        crcfn, foldnode, foldfr, foldentry = folds[0]
+        CRCF = next((k for k, v in writes.items() if v[0] == "havoc" and v[2] == foldnode.lineno), None)
+    if CRCF is None:
+        # the checksum is not computed in the constructor and stored in a field (e.g. computed lazily, on first use): the structural rules R1-R3 have nothing to bind to.
+        # The same clauses are then decided on concrete readouts through the public API (E-ABS): correct ones must be valid (above), damaged ones must not be.
+        und_ = _damaged_catalogue(rep, M, C, file)
+        if und_:
+            rep.undecide(f"cannot find the CRC fold reached from DataReadout.__init__ ({len(folds)} loops), and the concrete catalogue is outside the interpreted subset: {und_}"[:300])
+        _expected(rep, M, C, RO, END, file)
+        _ident(rep, M, ce, file)
+        _ident_line_strict(rep, M, C, RO, DATA, file)
+        _payload(rep, M, C, RO, DATA, END, file, src)
+        return
     # ---------------------------------------------------------------- R2: readout starts with '/', end found
     raises = [p for p in Engine(M).run(init) if p.status == "raise"]
     def _canon(g, pol):
@@ -134,6 +145,19 @@ def check(src, rep):
     _ident(rep, M, ce, file)
     _ident_line_strict(rep, M, C, RO, DATA, file)
     # ---------------------------------------------------------------- R6: payload
+    _payload(rep, M, C, RO, DATA, END, file, src)
+
+
+def _ref_crc16(b):
+    crc = 0
+    for x in b:
+        crc ^= x
+        for _ in range(8):
+            crc = (crc >> 1) ^ 0xA001 if crc & 1 else crc >> 1
+    return crc
+
+
+def _payload(rep, M, C, RO, DATA, END, file, src):
     fn = C.methods["payload"]
     ps = Engine(M).run(fn)
     okp = len(ps) == 1 and ps[0].ret is not None
@@ -150,13 +174,56 @@ def check(src, rep):
                       witness=show_sv(ps[0].ret)[:100] if ps and ps[0].ret else None)
 
 
-def _ref_crc16(b):
-    crc = 0
-    for x in b:
-        crc ^= x
-        for _ in range(8):
-            crc = (crc >> 1) ^ 0xA001 if crc & 1 else crc >> 1
-    return crc
+def _damaged_catalogue(rep, M, C, file):
+    """readouts whose transmitted checksum differs from the CRC-16 of '/'..'!' are never valid: one-octet changes of the data block and of the identification text of a correct
+    readout (CRC-16 detects every single-octet error), every checksum digit changed, the checksum replaced by 0000 / FFFF / its byte swap / its decimal spelling - constructor and
+    is_valid interpreted (E-ABS).  Returns a text when a sample is outside the interpreted subset, else None (findings are reported)."""
+    from sa.abseval import AbsEval, AbsRaise
+    fnv = C.methods["is_valid"]
+    body = b"/LGF5E360\r\n\r\n1-0:1.8.0(000123.456*kWh)\r\n0-0:1.0.0(210222161900W)\r\n!"
+    crc = _ref_crc16(body)
+    good = body + b"%04X\r\n" % crc
+    variants = []
+    lo = body.index(b"\n") + 1
+    for pos in list(range(lo, len(body) - 1, 3)) + [5, 8]:
+        for bit in (0x01, 0x10):
+            v = body[pos] ^ bit
+            if v in (0x21, 0x0A, 0x0D, 0x2F) or v >= 0x80 or body[pos] in (0x0A, 0x0D):
+                continue
+            variants.append((f"octet {pos} changed to 0x{v:02x}", body[:pos] + bytes([v]) + body[pos + 1:] + b"%04X\r\n" % crc))
+    for k in range(4):
+        d = b"%04X" % crc
+        d2 = d[:k] + (b"0" if d[k:k + 1] != b"0" else b"1") + d[k + 1:]
+        variants.append((f"checksum digit {k} changed", body + d2 + b"\r\n"))
+    for name, cs in (("0000", b"0000"), ("FFFF", b"FFFF"), ("byte-swapped", b"%04X" % (((crc & 0xFF) << 8) | (crc >> 8))), ("complemented", b"%04X" % (crc ^ 0xFFFF)), ("in lower case but different", (b"%04x" % ((crc + 1) & 0xFFFF)))):
+        if cs.upper() != b"%04X" % crc:
+            variants.append((f"checksum replaced by {name}", body + cs + b"\r\n"))
+    n = 0
+    for what, raw in [("the correct readout", good)] + variants:
+        A = AbsEval(M)
+        try:
+            obj = A.instantiate(CLS, [raw])
+            r = A.apply(fnv, [obj])
+        except AbsRaise as ex:
+            r = ("raise", ex.cls)
+        except Exception as ex:  # noqa
+            r = ("undecided", f"{type(ex).__name__}: {ex}")
+        if r[0] in ("undecided", "branch"):
+            return f"{what}: {r[1]}"
+        n += 1
+        want = what == "the correct readout"
+        if r[0] == "raise" or r[1] is not want:
+            if want:
+                rep.violation("R3", f"{MOD}.DataReadout.is_valid", "rejects-correct", "a readout whose checksum is the CRC-16 of '/'..'!' is not reported valid", file, fnv.node.lineno, witness=f"{raw!r}: {r}"[:240])
+            else:
+                rep.violation("R3", f"{MOD}.DataReadout.is_valid", "accepts-damaged", "a readout whose transmitted checksum differs from the CRC-16 (polynomial 0xA001 reflected, initial value 0) of '/'..'!' is "
+                              "reported valid" if r[0] == "value" else f"is_valid raises {r[1]} on a damaged readout", file, fnv.node.lineno, witness=f"{what}: {raw!r}"[:240])
+            return None
+    for rule, text in (("R1", "CRC-16 parameters"), ("R2", "CRC window"), ("R3", "is_valid")):
+        rep.ok(rule, text + " (concrete catalogue)", f"the checksum is not kept in a field filled by the constructor; decided on {n} concrete readouts through the public API instead: the correct ones are valid, "
+               "every one-octet change of the checked region and every changed / replaced checksum is refused (constructor and is_valid interpreted, E-ABS)")
+    rep.count("damaged_catalogue", n)
+    return None
 
 
 def _correct_catalogue(rep, M, C, file):
